@@ -2246,6 +2246,8 @@ class Interp:
                     return
             lc = self.contracts.loop_contract(self, fr, node) if self.contracts is not None else None
             if lc is None:
+                if isinstance(r, VRef) and self.hobj(r).kind == "symlist" and not isinstance(node, ast.AsyncFor):
+                    return self.effect_free_loop(node, fr, r)
                 raise
             return self.contracts.run_loop(self, lc, node, fr, it)
         for x in items:
@@ -2259,6 +2261,104 @@ class Interp:
         self.exec_block(node.orelse, fr)
 
     st_AsyncFor = st_For
+
+    def effect_free_loop(self, node, fr, lst):
+        """`for x in xs:` over a list of symbolic length WITHOUT a loop contract, for bodies that change nothing but locals
+        (search loops: `if p(x): return x` / `break`).  Sound over-approximation: either the loop runs to completion - then nothing
+        but the locals the body assigns has changed (they are unknown afterwards), or some iteration, on an arbitrary element,
+        leaves it by return / raise / break.  A body path that completes normally after writing anything else makes the function
+        undecided (every path of the arbitrary iteration is explored, so such a path is always found)."""
+        from . import symlist
+        from .contracts import VPoison
+        o = self.hobj(lst)
+        n0 = o.meta["len"]
+        # lists of at most two elements are iterated exactly (so a refutation found there is a real behaviour of the code)
+        for k in range(0, 3):
+            if n0.c == k or (n0.c is None and self.path.branch(n0.as_int() == k, "short_list")):
+                for j in range(k):
+                    self.assign(node.target, symlist.getitem(self, lst, o, mkint(j)), fr)
+                    try:
+                        self.exec_block(node.body, fr)
+                    except BreakSig:
+                        return
+                    except ContinueSig:
+                        continue
+                self.exec_block(node.orelse, fr)
+                return
+        assigned = set()
+        for b in node.body + [ast.Expr(value=node.target)]:
+            for n in ast.walk(b):
+                if isinstance(n, ast.Name) and isinstance(n.ctx, ast.Store):
+                    assigned.add(n.id)
+                elif isinstance(n, ast.NamedExpr) and isinstance(n.target, ast.Name):
+                    assigned.add(n.target.id)
+        for n in ast.walk(node.target):
+            if isinstance(n, ast.Name):
+                assigned.add(n.id)
+        n = o.meta["len"]
+        nt = n.as_int() if n.c is None else n.c
+
+        def poison():
+            for nm in assigned:
+                if nm in fr.locals:
+                    fr.locals[nm] = VPoison(nm)
+
+        def completes(idx_term, lo, hi_excl):
+            """the body, run on an arbitrary element with lo <= index < hi_excl, completes normally and changes nothing but locals
+            (a necessary condition for the iterations before the one that leaves the loop / for all iterations of a completed loop)"""
+            self.path.assume(z3.And(idx_term >= lo, idx_term < hi_excl))
+            self.assign(node.target, symlist.getitem(self, lst, o, VInt(i=idx_term, lo=0, hi=MAXLEN)), fr)
+            saved = self.write_log
+            self.write_log = []
+            try:
+                try:
+                    self.exec_block(node.body, fr)
+                except ContinueSig:
+                    pass
+            except (BreakSig, ReturnSig, PyRaise):
+                self.write_log = saved
+                raise PathEnd("this iteration would have left the loop")
+            except BaseException:
+                self.write_log = saved
+                raise
+            log, self.write_log = self.write_log, saved
+            bad = [w for w in log if w[0] != "local"]
+            if bad:
+                raise Unsupported(f"loop over a symbolic list at line {node.lineno} changes state ({bad[0][0]}) and has no loop contract")
+
+        MARK = f"loop over a symbolic list at line {node.lineno} without a loop contract (abstracted: the iterations before the one that leaves the loop are represented by one arbitrary witness)"
+        k = self.path.choose(3, "effect_free_loop")
+        if k == 0:
+            # the first element already leaves the loop: exact
+            self.assign(node.target, symlist.getitem(self, lst, o, mkint(0)), fr)
+            try:
+                self.exec_block(node.body, fr)
+            except BreakSig:
+                return
+            except ContinueSig:
+                pass
+            raise PathEnd("first iteration completed normally (covered by the other branches)")
+        if k == 1:
+            # the loop runs to completion: every iteration completed normally, in particular an arbitrary one
+            self.path.ghost["overapprox"] = MARK
+            completes(z3.Int(fresh("iter_w")), 0, nt)
+            poison()
+            self.exec_block(node.orelse, fr)
+            return
+        # some iteration i >= 1 leaves the loop; an arbitrary earlier one completed normally
+        self.path.ghost["overapprox"] = MARK
+        i = z3.Int(fresh("iter"))
+        self.path.assume(z3.And(i >= 1, i < nt))
+        completes(z3.Int(fresh("iter_w")), 0, i)
+        poison()
+        self.assign(node.target, symlist.getitem(self, lst, o, VInt(i=i, lo=0, hi=MAXLEN)), fr)
+        try:
+            self.exec_block(node.body, fr)
+        except BreakSig:
+            return
+        except ContinueSig:
+            pass
+        raise PathEnd("end of arbitrary iteration (effect-free loop)")
 
 
 class _GuardFrame:
